@@ -554,11 +554,15 @@ class CallMixin:
         finally:
             self.heap_override = saved_h
 
-    def eval_contract_fn(self, contract, fname, values: dict, old_heap=None, old_env=None) -> V:
-        """Evaluate contract function `fname` in spec mode; parameters resolved by name."""
+    def eval_contract_fn(self, contract, fname, values: dict, old_heap=None, old_env=None, in_old_state=False) -> V:
+        """Evaluate contract function `fname` in spec mode; parameters resolved by name.
+        in_old_state: evaluate entirely in the entry heap (requires / raises_* conditions)."""
         fn = contract.funcs[fname]
         saved = (self.spec_mode, self.spec_frame)
         saved_line = self.cur_line
+        saved_override = self.heap_override
+        if in_old_state and old_heap is not None:
+            self.heap_override = old_heap
         self.spec_mode = True
         self.spec_frame = {"old_heap": old_heap, "old_env": old_env}
         try:
@@ -574,6 +578,7 @@ class CallMixin:
         finally:
             self.spec_mode, self.spec_frame = saved
             self.cur_line = saved_line
+            self.heap_override = saved_override
 
     def eval_invariant(self, fr: Frame, inv_fn, env: Env, extra: dict):
         values = dict(env.locals)
@@ -603,6 +608,13 @@ class CallMixin:
     def apply_contract(self, c, f, bound: dict) -> V:
         caller = self.frames[-1].qualname if self.frames else "<top>"
         line = self.cur_line
+        for pn, kind in c.params.items():
+            v = bound.get(pn)
+            if isinstance(v, VOpt) and not kind.startswith("opt["):
+                # a possibly-None argument for a parameter the contract types as non-optional
+                self.path.oblige(f"{caller}#pre:{c.short}:{pn}-not-None@{self.call_counts.get((caller, c.short), 0)}",
+                                 z3.Not(v.isnone), line=line, kind="pre")
+                bound[pn] = v.val
         values = dict(bound)
         if "requires" in c.funcs:
             pre = self.truthy(self.eval_contract_fn(c, "requires", values))
